@@ -171,7 +171,7 @@ CHECKS = [
      "design_ref": "4/C03", "note": SIM_NOTE + "; vlib/ref/regs.py is the specification of the documented encodings",
      "technique": "model-based property testing: bounded-exhaustive call pairs/triples + Hypothesis call sequences vs register reference model"},
     {"property_id": "C08", "level": "exploration",
-     "text": "breadth-first enumeration of every call sequence to depth 4 (quick) / 5-6 (thorough) over a 17-symbol alphabet of "
+     "text": "breadth-first enumeration of every call sequence to depth 4 (quick) / 5 (thorough) over a 17-symbol alphabet of "
              "pipe-0 opens/closes, open_tx_pipe, auto-ack changes, ack = True, a transmission, a with-block re-entry and listen toggles "
              "for address widths 3..5, Hypothesis "
              "sequences to length 40 beyond; registers after every call are compared with the reference model of the user's "
